@@ -132,37 +132,10 @@ Definition state_cmp (a b : state) : list bool :=
 
 Definition state_eqb (a b : state) : bool := forallb (fun x => x) (state_cmp a b).
 
-(* The two components in which the code falls short of the property (findings C14-1, C14-2) are compared
-   so that BOTH the current behaviour (= the model) and the behaviour the property demands are accepted;
-   anything else is a mismatch.  Position 5 = DelegationByValIndex, 13 = UnbondingIndex. *)
-Fixpoint tolerant (i : Z) (impl : state) (l : list bool) : list bool :=
-  match l with
-  | [] => []
-  | b :: r =>
-    (b || ((i =? 5) && matchb k2_eqb (dels (stake impl)) (idx71 (stake impl)))
-       || ((i =? 13) && idx38b impl)) :: tolerant (i + 1) impl r
-  end.
-Definition state_eqb_tol (model impl : state) : bool :=
-  forallb (fun x => x) (tolerant 0 impl (state_cmp model impl)).
-
-Definition involved_openb (s : state) (a : addr) : bool :=
-  existsb (fun kv : Z * proposal => is_open (snd kv) && involved (gov s) (fst kv) (snd kv) a) (props (gov s)).
-
-Definition op_parties (o : cop) : option (addr * addr) :=
-  match o with CMigrate f t _ => Some (f, t) | CMigrateSrv f t => Some (f, t) | _ => None end.
-
 Definition mig_mismatch (c : mig_case) : bool :=
-  negb (wfb (mc_pre c) && qcoverb (mc_pre c)) ||
+  negb (wfb (mc_pre c) && qcoverb (mc_pre c) && govwfb (mc_pre c)) ||
   match model_step (mc_pre c) (mc_op c), mc_obs c with
-  | Ok s', OOk => negb (state_eqb_tol s' (mc_post c))
-  | Ok s', OErr 8 =>
-      (* refused for governance involvement although the model's (= today's) scan sees nothing: accepted
-         exactly when an OPEN proposal does involve one of the two addresses, as the property demands *)
-      negb (state_eqb (mc_pre c) (mc_post c)) ||
-      match op_parties (mc_op c) with
-      | Some (f, t) => negb (involved_openb (mc_pre c) f || involved_openb (mc_pre c) t)
-      | None => true
-      end
+  | Ok s', OOk => negb (state_eqb s' (mc_post c))
   | Err e, OErr code => negb (err_code e =? code) || negb (state_eqb (mc_pre c) (mc_post c))
   | Panic, OPanic => negb (state_eqb (mc_pre c) (mc_post c))
   | _, _ => true
@@ -174,8 +147,9 @@ Fixpoint false_positions (i : Z) (l : list bool) : list Z :=
   match l with [] => [] | b :: r => if b then false_positions (i + 1) r else i :: false_positions (i + 1) r end.
 Definition diag (c : mig_case) : list Z :=
   (if wfb (mc_pre c) then [] else [-2]) ++ (if qcoverb (mc_pre c) then [] else [-3]) ++
+  (if govwfb (mc_pre c) then [] else [-4]) ++
   match model_step (mc_pre c) (mc_op c), mc_obs c with
-  | Ok s', OOk => false_positions 0 (tolerant 0 (mc_post c) (state_cmp s' (mc_post c)))
+  | Ok s', OOk => false_positions 0 (state_cmp s' (mc_post c))
   | Err e, OErr code => if err_code e =? code then false_positions 0 (state_cmp (mc_pre c) (mc_post c)) else [-1; err_code e]
   | Panic, OPanic => []
   | Ok _, _ => [-1; 0]
